@@ -49,7 +49,7 @@ def load_deps():
 def main():
     wt = os.path.abspath(sys.argv[1])
     mx = int(sys.argv[sys.argv.index("--max") + 1]) if "--max" in sys.argv else 120
-    jobs = int(sys.argv[sys.argv.index("--jobs") + 1]) if "--jobs" in sys.argv else 8
+    jobs = int(sys.argv[sys.argv.index("--jobs") + 1]) if "--jobs" in sys.argv else 4
     changed = subprocess.run(["git", "-C", wt, "diff", "--name-only", "HEAD"], capture_output=True, text=True).stdout.split()
     changed += subprocess.run(["git", "-C", wt, "ls-files", "--others", "--exclude-standard"], capture_output=True, text=True).stdout.split()
     changed = [c for c in changed if c.startswith("include/") or c.startswith("tests/")]
